@@ -445,6 +445,14 @@ theorem get_evidence_spec (a : DocArgs) (d : Doc) (h : buildSR a = .ok d) :
   · simp only [getEvidence, if_true, List.append_nil]
     exact dedup_of_nodup _ _ (List.nodup_append.mp hn).1 (by simp)
 
+/-- **`get_evidence_series()` lists every (study, series) that holds recorded evidence, once** — a series with both
+referenced and other instances appears in both sequences but once in the answer. -/
+theorem get_evidence_series_spec (d : Doc) :
+    (getEvidenceSeries d false).Nodup ∧ (∀ k, k ∈ getEvidenceSeries d false ↔ k ∈ pairs d.current ∨ k ∈ pairs d.other) ∧
+    (getEvidenceSeries d true).Nodup ∧ (∀ k, k ∈ getEvidenceSeries d true ↔ k ∈ pairs d.current) := by
+  simp only [getEvidenceSeries, pairs_eq_flatMap, Bool.false_eq_true, if_false, if_true, List.append_nil]
+  refine ⟨(dedup_spec _).1, fun k => by rw [(dedup_spec _).2 k, List.mem_append], (dedup_spec _).1, fun k => (dedup_spec _).2 k⟩
+
 /-- **Previous versions** are all listed as predecessor documents (each as often as given), grouped under their own
 study and series; none are listed when none are given. -/
 theorem predecessors_listed (a : DocArgs) (d : Doc) (h : buildSR a = .ok d) :
